@@ -84,7 +84,7 @@ def main():
             sh(["git", "-C", "/repo", "checkout", "--", "."])
             sh(["git", "-C", "/repo", "clean", "-fdq", "src"])
             # files of /verif that the checks regenerate from /repo's source / rewrite on every run: back to the unchanged tree's
-            sh(["python3", "-c", "import sys; sys.path.insert(0, '/verif'); from harness import facts; facts.generate()"], cwd="/verif")
+            sh(["python3", "-c", "import sys; sys.path.insert(0, '/verif'); from harness import facts, matchfacts; facts.generate(); matchfacts.generate()"], cwd="/verif")
             sh(["git", "-C", "/verif", "checkout", "--", "evidence"])
     else:
         det["error"] = "patch does not apply to /repo: " + e[-300:]
